@@ -11,7 +11,7 @@ from fractions import Fraction
 import numpy as np
 from harness import common as C
 
-HEADER = """From Coq Require Import List ZArith QArith Bool. Import ListNotations.
+HEADER = """From Coq Require Import List NArith ZArith QArith Bool. Import ListNotations.
 From TLV Require Import Base.Tensor Model.Structure Corr.C08.
 Local Open Scope nat_scope."""
 
@@ -204,12 +204,12 @@ def gen_cases(tier, rng):
     quick = tier == "quick"
     fracs = FRACS_Q if quick else FRACS_T
     dimsA = [1, 2, 3, 5] if quick else [1, 2, 3, 4, 5, 7]
-    vshapes = list(grid_shapes([1, 2, 3], dimsA)) + [capped_shape(rng, o, [1, 2, 3, 4, 6, 9], 4000) for o in (4, 4, 5, 5, 6) for _ in range(3 if quick else 20)]
+    vshapes = list(grid_shapes([1, 2], dimsA)) + (rng.sample(list(grid_shapes([3], dimsA)), 24) if quick else list(grid_shapes([3], dimsA))) + [capped_shape(rng, o, [1, 2, 3, 4, 6, 9], 4000) for o in (4, 4, 5, 5, 6) for _ in range(3 if quick else 20)]
     # ---- validators
     for s in vshapes:
         n = len(s)
         for rd in ROUNDINGS:
-            for f in fracs:
+            for f in (fracs if (not quick or rd == "round") else rng.sample(fracs, 2)):
                 yield dict(kind="VCp", shape=s, spec=f, kw=dict(rounding=rd))
                 yield dict(kind="VTr", shape=s, spec=f, kw=dict(rounding=rd))
                 yield dict(kind="VTucker", shape=s, spec=f, kw=dict(rounding=rd))
@@ -546,7 +546,8 @@ class NormSpy:
 
         def spy(cp_tensor):
             r = orig(cp_tensor)
-            outputs.append(r)
+            w, fs = r                 # snapshot: the drivers go on writing into the returned factor list
+            outputs.append((np.array(w, copy=True), [np.array(f, copy=True) for f in fs]))
             return r
         self.spy = spy
         self.patched = []
@@ -672,7 +673,7 @@ def norm_case_lit(cid, nc, res):
           f"{C.nat(len(nc['shape']))} {C.nat_list(list(nc.get('fixed') or []))} {C.nat(nc['n_iter_max'])} {dl} {C.boolc(obs)})")
     sweeps = len(res["errors"]) if obs else 0
     exp = f"(Ok [[{sweeps}]%nat; [{1 if res['ends_norm'] else 0}]%nat; [{1 if res['n_norm'] else 0}]%nat])"
-    return f"({cid}%nat, {op}, {exp})"
+    return f"({cid}%N, {op}, {exp})"
 
 
 def norm_cases(tier, rng):
@@ -720,31 +721,13 @@ def norm_cases(tier, rng):
                                        normalize_factors=nf, callback=False, fixed=fx)
 
 
-# known findings: with normalize_factors=True ...
 def _all_fixed(i):
     return i.get("fn") == "parafac" and list(i.get("fixed") or []) == list(range(len(i.get("shape", []))))
 
 
-def clf_user_init_no_sweep(f):
-    """... a user-supplied initialisation is returned as is when no sweep is executed (cap 0, or parafac with every mode fixed)"""
-    i = f["inputs"]
-    return i.get("init") == "user" and i.get("normalize_factors") is True and (i.get("n_iter_max") == 0 or _all_fixed(i))
-
-
-def clf_callback_stop(f):
-    """... parafac returns the un-normalised iterate when its callback asks to stop"""
-    i = f["inputs"]
-    return i.get("fn") == "parafac" and i.get("normalize_factors") is True and i.get("cb_fired") is True and not _all_fixed(i)
-
-
-def clf_tr_rotation(f):
-    i = f["inputs"]
-    spec = i.get("spec")
-    return i.get("kind") == "DTr" and i.get("kw", {}).get("mode", 0) >= 2 and isinstance(spec, (list, tuple)) and len(set(spec)) > 1
-
-
-CLASSIFIERS = {"user_init_and_no_sweep": clf_user_init_no_sweep, "callback_stop_not_normalised": clf_callback_stop,
-               "tr_mode_ge_2_nonconstant_rank": clf_tr_rotation}
+# no known finding at present (the earlier classes "user initialisation and no sweep", "callback stop" were repaired by
+# 3de556b and are kept as corpus inputs, corpus/C08/normalisation_exits.json)
+CLASSIFIERS = {}
 
 
 def _install_known_loader():
@@ -770,6 +753,10 @@ def _install_known_loader():
 def run(chk):
     rng = random.Random(chk.seed)
     chk.build_proofs()
+    # common.print_assumptions also captures the header line "Axioms:" that Coq prints before the list; it is not an axiom
+    chk.axioms = {k: [a for a in v if a != "Axioms"] for k, v in chk.axioms.items()}
+    chk.broken = [b for b in chk.broken if not (str(b.get("what", "")).endswith("depends on non-stdlib axioms")
+                                                 and not C.own_axioms([a for a in b.get("detail", []) if a != "Axioms"]))]
     C.reset_backends()
     orig_loader = _install_known_loader()
     try:
@@ -779,7 +766,10 @@ def run(chk):
 
 
 def _run(chk, rng):
+    import time
     tier = chk.tier
+    t_start, c_start = time.time(), time.process_time()
+    chk.notes.append(f"build+Print Assumptions: {t_start - chk.t0:.1f}s wall")
     cases, meta, skipped, timeouts = [], [], 0, 0
     for case in gen_cases(tier, rng):
         kind, s, spec, kw = case["kind"], case["shape"], case["spec"], case["kw"]
@@ -805,7 +795,7 @@ def _run(chk, rng):
             skipped += 1          # numerically singular sub-problem (data dependent), not a structural outcome
             continue
         cid = len(cases)
-        cases.append(f"({cid}%nat, {op_lit(case, c)}, {shapes_lit(st, shapes)})")
+        cases.append(f"({cid}%N, {op_lit(case, c)}, {shapes_lit(st, shapes)})")
         meta.append(case)
         key_spec = spec if not isinstance(spec, float) else ("frac", spec)
         chk.count(key=(kind, s, key_spec, tuple(sorted((k, str(v_)) for k, v_ in kw.items()))), nontrivial=prod([d for d in (s if kind not in ("DParafac2", "DCmtf") else [2])]) > 1)
@@ -846,7 +836,10 @@ def _run(chk, rng):
             out = res["out"]
             chk.finding(f"tensorly.decomposition.{nc['fn']}", inputs, msg, pred,
                         observed=None if res["st"] != "ok" else {"weights": out.weights, "column_norms": [np.linalg.norm(f, axis=0) for f in out.factors]})
+    t_impl = time.time()
+    chk.notes.append(f"implementation runs + predicates: {t_impl - t_start:.1f}s wall, {time.process_time() - c_start:.1f}s cpu")
     failing, n_eval, broken = C.run_case_shards("C08", HEADER, "case", cases, shard=300, timeout=900)
+    chk.notes.append(f"coqc shards ({len(cases)} cases): {time.time() - t_impl:.1f}s wall")
     chk.checker_cmds.append("coqc (vm_compute) on generated build/cases/C08/*.v: Corr.C08.failing")
     for b in broken:
         chk.broken.append({"what": "correspondence corr:C08 shard not evaluated", "detail": b})
